@@ -14,23 +14,24 @@ from . import c02
 LEVEL = "proof"
 MANIFEST = {
     "category": "proof",
-    "technique": "contract-based deductive verification, relational mode on the real block code: VectorNeuronNonlinear, GroupNorm / LayerNorm (scalar path through the formula contract of eqx.nn.GroupNorm, vector path: GroupNorm against the contract of _group_norm_K1, and _group_norm_K1's real body (centring, covariance, eps, inverse square root, U S U^T) around the assumed contract of jnp.linalg.eigh), average_pool and unpool executed on x and g.x for every g, learnable parameters as free symbols, eps symbolic and positive; z3 with BigSum re-indexing for group statistics; max pooling: assumed relational contract + bounded native stand-in",
-    "text": "For every g in B_d (d=2 all 8, d=3 class representatives), every accepted type incl. pseudo-scalars / pseudo-vectors, learnable scales, biases and mixing weights as arbitrary reals (not the initial values), symbolic positive eps and ALL spatial extents: block(g.x) == g.block(x) for the vector-neuron nonlinearity (channels 1..2 enumerated), group / layer normalisation (channel counts per group symbolic), average pooling and nearest-neighbour unpooling. Tests use the initial parameters (bias 0, scale 1) and eps = 0.",
-    "note": "KNOWN FINDING (see known_findings.json): the scalar path of GroupNorm/LayerNorm adds a per-channel bias to pseudo-scalars (0,1); with bias != 0 the reflections break equivariance. _group_norm_K1 is verified around an ASSUMED contract of jnp.linalg.eigh (eigen-decomposition of g C g^T is (LAM, g U diag(+-1)), every sign vector enumerated; simple spectrum; covariance positive semi-definite) and additionally bounded natively; max_pool / MaxNormPool (argmax, unique maximum) bounded natively; translations by multiples of the patch length bounded natively; reals not floats; sqrt / activation uninterpreted",
+    "technique": "contract-based deductive verification, relational mode on the real block code: VectorNeuronNonlinear, GroupNorm / LayerNorm (scalar path through the formula contract of eqx.nn.GroupNorm, vector path: GroupNorm against the contract of _group_norm_K1, and _group_norm_K1's real body (centring, covariance, eps, inverse square root, U S U^T) around the assumed contract of jnp.linalg.eigh), average_pool and unpool executed on x and g.x for every g, learnable parameters as free symbols, eps symbolic and positive; z3 with BigSum re-indexing for group statistics; max pooling by norm (functional max_pool, GeometricImage.max_pool, MaxNormPool layer) under the no-ties pre-condition with jnp.argmax as an uninterpreted function carrying its contract and a complete case analysis over its values; bounded native stand-in for the assumed eigh / argmax contracts on every run",
+    "text": "For every g in B_d (d=2 all 8, d=3 class representatives), every accepted type incl. pseudo-scalars / pseudo-vectors, learnable scales, biases and mixing weights as arbitrary reals (not the initial values), symbolic positive eps and ALL spatial extents: block(g.x) == g.block(x) for the vector-neuron nonlinearity (channels 1..2 enumerated), group / layer normalisation (channel counts per group symbolic), average pooling and nearest-neighbour unpooling, max pooling by norm (no norm ties inside a patch; functional, image and layer entry points) and the eigh whitening helper _group_norm_K1 (around the assumed eigh contract, every eigenvector sign choice). Tests use the initial parameters (bias 0, scale 1) and eps = 0.",
+    "note": "KNOWN FINDING (see known_findings.json): the scalar path of GroupNorm/LayerNorm adds a per-channel bias to pseudo-scalars (0,1); with bias != 0 the reflections break equivariance. _group_norm_K1 is verified around an ASSUMED contract of jnp.linalg.eigh (eigen-decomposition of g C g^T is (LAM, g U diag(+-1)), every sign vector enumerated; simple spectrum; covariance positive semi-definite) and additionally bounded natively; max_pool / MaxNormPool verified under the no-ties pre-condition around the assumed argmax contract; translations by multiples of the patch length bounded natively; reals not floats; sqrt / activation uninterpreted",
 }
 FUNCTIONS = ["ml.layers.VectorNeuronNonlinear.__call__", "ml.layers.GroupNorm.__init__", "ml.layers.GroupNorm.__call__", "ml.layers.LayerNorm.__init__",
              "functional_geometric_image.norm", "functional_geometric_image.average_pool", "GeometricImage.average_pool", "GeometricImage.unpool",
              "MultiImage.average_pool", "ml.layers._group_norm_K1 (own obligations around the assumed eigh contract; GroupNorm calls it through that contract)",
-             "functional_geometric_image.max_pool / ml.layers.MaxNormPool (bounded native stand-in only)"]
+             "functional_geometric_image.max_pool", "GeometricImage.max_pool", "ml.layers.MaxNormPool.__call__"]
 TRUSTED = ["CPython for the concrete part", "structured-array engine, BigSum congruence / re-indexing", "z3 (uninterpreted-multiplication abstraction first, then NRA)",
            "ASSUMED: eqx.nn.GroupNorm formula; jnp.linalg.eigh: decomposition of g C g^T is (LAM, g U diag(+-1)) (simple spectrum; repeated eigenvalues by the same spectral-calculus argument), eigenvalues of the covariance >= 0; C04 library contracts", "act_spec"]
-ASSUMPTIONS = ["reals not floats", "eps > 0; group variance + eps > 0", "scalar activation is an arbitrary function (uninterpreted)", "no norm ties for max pooling (statement's pre-condition) - max pooling is bounded only"]
+ASSUMPTIONS = ["reals not floats", "eps > 0; group variance + eps > 0", "scalar activation is an arbitrary function (uninterpreted)", "no norm ties inside a patch for max pooling (statement's pre-condition)", "jnp.argmax returns an index attaining the maximum (assumed library contract, instantiated per application)", "the covariance handed to eigh is positive semi-definite (it is a Gram matrix); eigenvalues simple"]
 EXPLANATION = "Exhaustive in g (d=3: representatives), unbounded in parameters, extents, channel counts per group (normalisation); enumerated in types, channel counts (nonlinearity), groups."
-GRID = {"quick": "d=2 all g: VN types (0,0),(0,1),(1,0),(1,1),(2,0) x channels {1,2}; LayerNorm / GroupNorm(2 groups) on (0,0),(0,1),(1,0),(1,1); pools on (0,0),(1,1); d=3: 3 g",
+GRID = {"quick": "d=2 all g: VN types (0,0),(0,1),(1,0),(1,1),(2,0) x channels {1,2}; LayerNorm / GroupNorm(2 groups) on (0,0),(0,1),(1,0),(1,1); average/un-pool and max pool on (0,0),(1,1) + MaxNormPool layer; _group_norm_K1 groups {1,2} x all eigenvector sign vectors; d=3: 3 g (sign vectors sampled except for one g)",
         "thorough": "d=3: 12 g; VN channels up to 3; k=2 pseudo"}
 
 
-# max pooling (argmax) and the eigh whitening are external numerics: always covered by the bounded native stand-in
+# max pooling (argmax contract) and the eigh whitening (eigh contract) rest on assumed library contracts: additionally
+# covered by the bounded native stand-in on every run
 NATIVE_ALWAYS = {"quick": {"only": "external"}, "thorough": {"only": "all"}}
 
 
@@ -56,6 +57,13 @@ def jobs(tier):
                 out.append(("gvc.props.c08", "ob_norm", dict(D=D, groups=groups, gi=gi, pseudo=pseudo)))
             for (k, p) in [(0, 0), (1, 1)]:
                 out.append(("gvc.props.c08", "ob_pool", dict(D=D, k=k, p=p, gi=gi)))
+            # max pooling by norm: scalars and (pseudo-)vectors; the layer entry point for one type per g
+            for (k, p) in ([(0, 0), (1, 1)] if (q or D == 3) else [(0, 0), (0, 1), (1, 0), (1, 1), (2, 0)]):
+                if D == 3 and k == 1 and q and gi != 33:
+                    continue
+                out.append(("gvc.props.c08", "ob_maxpool", dict(D=D, k=k, p=p, gi=gi, entry="image")))
+            if D == 2 or not q:
+                out.append(("gvc.props.c08", "ob_maxpool", dict(D=D, k=(gi % 2), p=(gi // 2) % 2, gi=gi, entry="layer")))
             # the whitening helper itself, against ITS contract (GroupNorm above is verified against the same contract)
             for groups in [1, 2]:
                 ts = list(itertools.product([1, -1], repeat=D))
@@ -231,6 +239,55 @@ def ob_whiten(D, groups, gi, ts):
             obs.append(guard(f"C08/_group_norm_K1/D={D},g#{gi},t={tn}/canary:opposite-parity", "canary",
                              lambda pre=pre, run=run, post_bad=post_bad: all_paths(pre, run, post_bad), structure))
             fin()
+    return obs
+
+
+def ob_maxpool(D, k, p, gi, entry="image"):
+    """max pooling by norm (functional max_pool through GeometricImage.max_pool, or the MaxNormPool layer which vmaps it
+    over channels) commutes with g.  Pre-condition from the statement: no norm ties inside a patch.  jnp.argmax is an
+    uninterpreted function with its contract (an index attaining the maximum) instantiated per application; the proof is a
+    complete case analysis over the argmax values of the two runs."""
+    Gm, Lm = geom(), L()
+    arr.ENUM_SMALL[0] = 3
+    g = np.asarray(c02.ops(D)[gi])
+    pre = []
+    half = [sint(f"h{d}", pre) for d in range(D)]
+    sp = [Atom(mk(zi(h) * 2), f"N{d}") for d, h in enumerate(half)]
+    lead = [Atom(sint("C", pre), "C")] if entry == "layer" else []
+    X = arr.source("X", lead + sp + [Atom(D) for _ in range(k)])
+    structure = dict(D=D, k=k, parity=p, entry=entry, g=g.tolist(), patch_len=2)
+
+    def run():
+        lib.ARGMAX_NO_TIES[0] = True
+        try:
+            if entry == "layer":
+                layer = Lm.MaxNormPool(2)
+                y0 = layer(Gm.MultiImage({(k, p): X}, D, True))
+                yg = layer(Gm.MultiImage({(k, p): act_sym(X, D, k, p, g, lead=1)}, D, True))
+                return y0[(k, p)], yg[(k, p)], (list(y0.keys()), list(yg.keys()))
+            a0 = Gm.GeometricImage(X, p, D, True)
+            ag = Gm.GeometricImage(act_sym(X, D, k, p, g), p, D, True)
+            r0, rg = a0.max_pool(2), ag.max_pool(2)
+            return r0.data, rg.data, ((r0.k, r0.parity), (rg.k, rg.parity))
+        finally:
+            lib.ARGMAX_NO_TIES[0] = False
+
+    def post(res, par=p):
+        r0, rg, meta = res
+        if entry == "layer" and meta != ([(k, p)], [(k, p)]):
+            return "refuted", f"key sets changed: {meta}", None
+        if entry == "image" and meta != ((k, p), (k, p)):
+            return "refuted", f"declared type changed: {meta}", None
+        return arr.compare(arr.lift(rg), act_sym(arr.lift(r0), D, k, par, g, lead=len(lead)), "max_pool(g.x) vs g.max_pool(x)")
+
+    nm = "GeometricImage.max_pool" if entry == "image" else "MaxNormPool"
+    o = guard(f"C08/{nm}/D={D},k={k},p={p},g#{gi}/ensures:equivariant", "ensures", lambda: all_paths(pre, run, post), structure)
+    o["replay"] = dict(scenario="pool", D=D, k=k, p=p, op="max_pool", g=g.tolist()) if entry == "image" else dict(scenario="maxnormpool", D=D, g=g.tolist())
+    obs = [o]
+    if entry == "image" and det_of(g) == -1 and k <= 1:
+        obs.append(cover(f"C08/{nm}/D={D},k={k},p={p},g#{gi}/cover:pre", pre, structure))
+        obs.append(guard(f"C08/{nm}/D={D},k={k},p={p},g#{gi}/canary:opposite-parity", "canary",
+                         lambda: all_paths(pre, run, lambda res: post(res, 1 - p)), structure))
     return obs
 
 
